@@ -187,7 +187,11 @@ let verdict case impl =
             | (Some (Err (st, e)), c) -> ("err " ^ stage_name st ^ " " ^ err_name e, c, e = EUnmodelled)
             | (Some (Ok (r, cc)), c) ->
               let tv = if r.rr_cols = [] then "z" ^ dec_of_n (if int_of_n r.rr_rows_count > 1000000 then n_of_i 1000000 else r.rr_rows_count) else
-                  (match typed_rows_first_error r.rr_cols r.rr_rows N0 with None -> "ok" | Some i -> "err@" ^ dec_of_n i) in
+                  (match typed_rows_first_error r.rr_cols r.rr_rows N0 with None -> "ok" | Some i -> "err@" ^ dec_of_n i)
+                  ^ (let k = tuple_target r.rr_cols in
+                     if k = N0 then "" else
+                       ",t" ^ dec_of_n k ^ ":" ^ (match tuple_rows_first_error k r.rr_cols r.rr_rows N0 with
+                           | None -> "ok" | Some i -> "err@" ^ dec_of_n i)) in
               ("ok " ^ r_rows r cc ^ " tv=" ^ tv, c, false))
          else begin
            let (o, c) = decode decompress ft v2 compression stream in
@@ -199,6 +203,11 @@ let verdict case impl =
                  | RResult (ResRows r) when r.rr_cols <> [] ->
                    (match typed_rows_first_error r.rr_cols r.rr_rows N0 with
                     | None -> "ok" | Some i -> "err@" ^ dec_of_n i)
+                   ^ (* a typed tuple target, when one type-checks *)
+                   (let k = tuple_target r.rr_cols in
+                    if k = N0 then "" else
+                      ",t" ^ dec_of_n k ^ ":" ^ (match tuple_rows_first_error k r.rr_cols r.rr_rows N0 with
+                          | None -> "ok" | Some i -> "err@" ^ dec_of_n i))
                  | RResult (ResRows r) ->
                    "z" ^ dec_of_n (if int_of_n r.rr_rows_count > 1000000 then n_of_i 1000000 else r.rr_rows_count)
                  | _ -> "-") in
@@ -217,8 +226,26 @@ let verdict case impl =
                        | Err TbWrongTokenRange -> "err:WrongTokenRange"))) in
              ("ok " ^ r_frame f ^ " tv=" ^ tv ^ " tb=" ^ tb, c, false)
          end in
+       (* kind Q: the reader delivered the stream in chunks (C08_chunking: same answer as all at once);
+          then what the next read_response_frame on the same reader returns *)
+       let second_alloc = ref 0 in
+       let model = if kind.[0] <> 'Q' then model else begin
+           (* the reader after the first call: behind the frame; behind the 9 header bytes when the header
+              was refused; at the end when the stream ran out *)
+           let rec drop k l = if k = 0 then l else (match l with [] -> [] | _ :: r -> drop (k - 1) r) in
+           let rest = (match fst (read_frame stream) with
+               | Ok ((_, _), rest) -> rest
+               | Err (EHeaderIo | EConnectionClosed) -> []
+               | Err _ -> drop 9 stream) in
+           (* the second call reserves its own body buffer (min(length, 1 MiB)): part of the accounting *)
+           second_alloc := int_of_n (snd (read_frame rest)).c_alloc;
+           let second = (match fst (read_frame rest) with
+               | Ok ((h, body), _) -> Printf.sprintf "ok:%s:%s:%s:%s" (dec_of_n h.h_flags) (dec_of_z h.h_stream) (dec_of_n h.h_opcode) (hexs body)
+               | Err e -> "err:" ^ err_name e) in
+           model ^ " q2=" ^ second
+         end in
        let impl_s = String.concat " " status in
-       let malloc = int_of_n c.c_alloc in
+       let malloc = int_of_n c.c_alloc + !second_alloc in
        let elen = n_of_i (expansion * len) in
        if not (largest_in_proportion elen (n_of_i maxreq) && total_in_proportion elen (n_of_i total)) then
          (* the property fails on the implementation's own measurements (C08_alloc's bound for the
@@ -388,6 +415,12 @@ let gen_response (ft : features) (v2 : bool) (deep : int) : response =
     let nomd = chance 1 8 in
     let changed = ft.ft_metadata_id && not nomd && chance 1 3 in
     let cols0 = gen_cols global ncols in
+    (* one time in three: column types for which a typed tuple target exists *)
+    let cols0 = if chance 1 3 && deep = 0 then
+        (match cols0 with
+         | [c] -> [{ c with cs_type = pick [TNative Int; TNative Blob; TNative Boolean; TList (false, TNative Int); TSet (false, TNative Int)] }]
+         | [a; b] -> [{ a with cs_type = TNative BigInt }; { b with cs_type = pick [TNative Text; TNative Ascii] }]
+         | l -> l) else cols0 in
     let cols = if deep > 0 && ncols > 0 then
         List.mapi (fun i c -> if i = 0 then { c with cs_type = nest deep c.cs_type } else c) cols0 else cols0 in
     let cols = if nomd then [] else cols in
@@ -432,7 +465,13 @@ let gen_pair (ft : features) : n list =
     encode_frame (fun b -> b) ft { f0 with d_header = { h0 with h_length = nb (List.length body) } } in
   let nrows = below 4 in
   let with_md = chance 1 5 in
-  let rows = List.init nrows (fun _ -> List.map (fun c -> gen_cell_for c.cs_type) (if nomd then [] else rcols)) in
+  (* one time in four the rows are written for one column more / fewer than the cached metadata has *)
+  let row_cols = if nomd then [] else
+      (match below 8 with
+       | 0 -> rcols @ gen_cols false 1
+       | 1 -> (match rcols with [] -> [] | _ :: t -> t)
+       | _ -> rcols) in
+  let rows = List.init nrows (fun _ -> List.map (fun c -> gen_cell_for c.cs_type) row_cols) in
   let r = if with_md then
       (let cols = gen_cols false 1 in
        { rr_hdr = { rh_col_count = nb 1; rh_global = false; rh_no_metadata = false; rh_metadata_changed = false; rh_paging = None };
@@ -443,6 +482,57 @@ let gen_pair (ft : features) : n list =
                    rh_paging = (if chance 1 3 then Some (gen_bytes 8) else None) };
         rr_meta_id = None; rr_cols = []; rr_rows_count = nb nrows; rr_rows = rows } in
   mk (RResult (ResPrepared p)) @ mk (RResult (ResRows r))
+
+(* kind F: the same response re-encoded by the extracted encoder with ONE count / length / flag field set to
+   a boundary value (the field map is the encoder's: no byte offsets are guessed); the header length stays
+   that of the new body unless it is the mutated field *)
+let boundary () : n = pick [N0; nb 1; nb 2; nb 0x7fff; nb 0xffff; nb 0x10000; n_of_hex "7fffffff"; n_of_hex "80000000"; n_of_hex "ffffffff"; n_of_hex "fffffffe"]
+let mutate_fields (ft : features) (f : dframe) : n list =
+  let reframe ?(len_delta = 0) ?(flags = None) ?(opcode = None) ?(version = None) (resp : response) (x : extensions) =
+    let h = f.d_header in
+    let h0 = { h with h_flags = (match flags with Some v -> v | None -> h.h_flags);
+                      h_opcode = (match opcode with Some v -> v | None -> h.h_opcode);
+                      h_version = (match version with Some v -> v | None -> h.h_version) } in
+    let f0 = { d_header = h0; d_ext = x; d_resp = resp } in
+    let body = enc_body ft f0 in
+    encode_frame (fun b -> b) ft { f0 with d_header = { h0 with h_length = nb (max 0 (List.length body + len_delta)) } } in
+  let x = f.d_ext and r = f.d_resp in
+  match below 10, r with
+  | 0, _ -> reframe ~len_delta:(pick [-1; 1; -4; 4; 1000]) r x
+  | 1, _ -> reframe ~flags:(Some (nb (below 32))) r x
+  | 2, _ -> reframe ~opcode:(Some (nb (pick [0; 2; 3; 6; 8; 12; 14; 16; 1; 255]))) r x
+  | 3, _ -> reframe ~version:(Some (nb (pick [4; 131; 133; 0x84; 0xff]))) r x
+  | _, RResult (ResRows rr) ->
+    let h = rr.rr_hdr in
+    let rr' = (match below 6 with
+        | 0 -> { rr with rr_hdr = { h with rh_col_count = boundary () } }
+        | 1 -> { rr with rr_rows_count = boundary () }
+        | 2 -> { rr with rr_hdr = { h with rh_global = not h.rh_global } }
+        | 3 -> { rr with rr_hdr = { h with rh_no_metadata = not h.rh_no_metadata } }
+        | 4 -> { rr with rr_hdr = { h with rh_metadata_changed = not h.rh_metadata_changed } }
+        | _ -> { rr with rr_hdr = { h with rh_paging = (match h.rh_paging with None -> Some (gen_bytes 5) | Some _ -> None) } }) in
+    reframe (RResult (ResRows rr')) x
+  | _, RResult (ResPrepared p) ->
+    let p' = (match below 6 with
+        | 0 -> { p with p_col_count = boundary () }
+        | 1 -> { p with pr_col_count = boundary () }
+        | 2 -> { p with p_flags = z_of_hex (hex_of_n (boundary ())) }
+        | 3 -> { p with pr_no_metadata = not p.pr_no_metadata }
+        | 4 -> { p with pr_global = not p.pr_global }
+        | _ -> { p with p_pk = List.map (fun (i, q) -> (boundary (), q)) p.p_pk }) in
+    reframe (RResult (ResPrepared p')) x
+  | _, RError (e, reason) ->
+    let e' = (match e with
+        | DbUnavailable (_, a, b) -> DbUnavailable (boundary (), a, b)
+        | DbWriteTimeout (cl, _, b, w) -> DbWriteTimeout (cl, z_of_hex (hex_of_n (boundary ())), b, w)
+        | DbReadTimeout (_, a, b, d) -> DbReadTimeout (boundary (), a, b, d)
+        | DbOther _ -> DbOther (z_of_hex (hex_of_n (boundary ())))
+        | e -> DbOther (z_of_i (pick [0x1000; 0x1100; 0x1200; 0x1300; 0x1400; 0x1500; 0x2400; 0x2500; 0x4321]))) in
+    reframe (RError (e', reason)) x
+  | _, _ ->
+    (* the extension fields are explicit in every frame *)
+    reframe r { x with x_trace = (match x.x_trace with None -> Some (gen_bytes 20) | Some t -> Some (List.tl t));
+                       x_payload = (match x.x_payload with None -> Some [] | Some _ -> None) }
 
 let gen_main seed count =
   rng := (seed * 2862933555777941757 + 3037000493) land max_int;
@@ -459,6 +549,12 @@ let gen_main seed count =
     let deep = if i mod 97 = 5 then pick [10; 100; 127; 128; 129; 1000] else if i mod 997 = 11 then 100000 else 0 in
     let f = gen_frame ft v2 deep in
     let wire = encode_frame (fun b -> b) ft f in
+    if deep = 0 then
+      for _ = 1 to 3 do
+        Printf.printf "F rl:%s,mid:%s %s %s\n"
+          (match ft.ft_rate_limit with None -> "-" | Some z -> hex_of_z z) (b01 ft.ft_metadata_id)
+          (if v2 then "2" else "1") (let s = hexs (mutate_fields ft f) in String.sub s 1 (String.length s - 1))
+      done;
     Printf.printf "rl:%s,mid:%s %s %s\n"
       (match ft.ft_rate_limit with None -> "-" | Some z -> hex_of_z z) (b01 ft.ft_metadata_id)
       (if v2 then "2" else "1") (let s = hexs wire in String.sub s 1 (String.length s - 1))
